@@ -97,12 +97,18 @@ idn_result_t idn_res_encodename (idn_resconf_t ctx, idn_action_t actions,
     char *out = NULL;
     int fault = 0, rc;
     char d[96];
-    (void)actions;
     g_sim_ctx.encode_calls++;
     if (!c) sim_report ("ctx:use-of-unknown-context", "idn_res_encodename on a pointer no create returned");
     else if (!c->live) {
         snprintf (d, sizeof d, "context #%d used after destroy", c->id);
         sim_report ("ctx:use-after-destroy", d);
+    }
+    /* idnkit performs only the steps requested in `actions`: without IDN_IDNCONV the name is not converted to ACE at all */
+    if ((actions & IDN_IDNCONV) == 0) {
+        size_t n = strlen (from);
+        if (n + 1 > tolen) return idn_buffer_overflow;
+        memcpy (to, from, n + 1);
+        return idn_success;
     }
     rc = sim_convert_raw (from, &out, &fault, -1);
     if (fault) {
